@@ -110,11 +110,17 @@ def r2(ctx):
     if pr:
         rm = [bb for bb, t in pr.calls(re.compile(r"^std::vec::Vec::(swap_remove|remove|drain|pop)$")) if INFL in _fields_of(pr, t["args"][0])]
         le = []
-        for sbb, te, fe, o in guards_on(pr, lambda o: o["k"] == "call" and re.search(r"PartialOrd>::le$|PartialOrd::le$", o["t"]["f"])):
+        WHEN = "field:turmoil_io_uring::sim::ScheduledCqe::when"
+        for sbb, te, fe, o in guards_on(pr, lambda o: o["k"] == "call" and re.search(r"PartialOrd>::(le|gt|ge|lt)$|PartialOrd::(le|gt|ge|lt)$", o["t"]["f"])):
             a0 = Slicer(ctx.w).atoms(pr, o["t"]["args"][0])
             a1 = Slicer(ctx.w).atoms(pr, o["t"]["args"][1])
-            if "field:turmoil_io_uring::sim::ScheduledCqe::when" in a0 and any(a.startswith("arg:2:") for a in a1):
-                le += te
+            cmp_ = o["t"]["f"].rsplit("::", 1)[1]
+            isnow = lambda at: any(a.startswith("arg:2:") for a in at)
+            # the edge on which `when <= now` holds, however the comparison is spelled
+            if WHEN in a0 and isnow(a1) and WHEN not in a1:
+                le += te if cmp_ == "le" else fe if cmp_ == "gt" else []
+            elif WHEN in a1 and isnow(a0) and WHEN not in a0:
+                le += te if cmp_ == "ge" else fe if cmp_ == "lt" else []
         ok = bool(rm) and bool(le) and all(pr.dominated_by_any(x, edges=le) for x in rm)
         ctx.inst(R, "promote_ready:maturity-guard", ok, pr.span, "an op becomes ready only when its time `when <= now`" if ok else
                  "promote_ready can move an op to the ready pool before its simulated latency has elapsed")
@@ -145,7 +151,8 @@ def r2(ctx):
         for bb, t in b.calls(re.compile(r"::(push|push_back|extend|swap_remove|remove|pop_front)$")):
             if t["args"] and set(_fields_of(b, t["args"][0])) & {READY, INFL}:
                 npool += 1
-    ctx.inst(R, "pools:element-wise", not whole and npool >= 4, whole[0][1] if whole else "", f"{npool} element-wise updates of inflight / ready, no wholesale one" if not whole and npool >= 4 else
+    if pr or ctx.strict:
+        ctx.inst(R, "pools:element-wise", not whole and npool >= 4, whole[0][1] if whole else "", f"{npool} element-wise updates of inflight / ready, no wholesale one" if not whole and npool >= 4 else
              (f"`{whole[0][0]}` changes a completion pool wholesale ({whole[0][2]}): completions that were still queued there are dropped - no CQE is ever delivered "
               "for them and their fs effect never happens" if whole else f"only {npool} element-wise pool updates found (re-derive)"))
     nx = ctx.w.bodies.get("<turmoil_io_uring::cqueue::CompletionQueue as std::iter::Iterator>::next")
